@@ -25,8 +25,23 @@ fn report_text(r: &cooklang::error::SourceReport) -> String {
 
 pub const OPS: [&str; 4] = ["parse", "meta", "validated", "scale"];
 
+thread_local! {
+    /// a read buffer reused for every call of the thread: successive inputs sit at the same address (as they do in a
+    /// server that reads requests into one buffer), so that nothing may be remembered by address
+    static BUF: std::cell::RefCell<String> = std::cell::RefCell::new(String::with_capacity(1 << 16));
+}
+
 /// one call; the result image covers the recipe and the ordered diagnostics
 pub fn call(parser: &CooklangParser, op: &str, text: &str) -> String {
+    BUF.with(|b| {
+        let mut b = b.borrow_mut();
+        b.clear();
+        b.push_str(text);
+        call_on(parser, op, &b)
+    })
+}
+
+fn call_on(parser: &CooklangParser, op: &str, text: &str) -> String {
     let r = guarded(|| match op {
         "parse" => {
             let r = parser.parse(text);
